@@ -186,7 +186,7 @@ def user_table(E, cfg):
 
 
 NUMS = [('int', 5, 3), ('int-neg', -3, 7), ('decimal', '2.5', '-0.75'), ('fraction', Fraction(9, 7), Fraction(1, 3)),
-        ('int-offset0', 7, 0), ('int-factor1', 1, 11), ('pow2', 4, -2)]
+        ('int-offset0', 7, 0), ('int-factor1', 1, 11), ('pow2', 4, -2), ('identity', 1, 0), ('identity-decimal', '1', '0')]
 
 
 def concrete_table(E, cfg):
@@ -196,7 +196,7 @@ def concrete_table(E, cfg):
     from quantity import Quantity, TableConverter
     T, ua, ub, uc = _mk_type(E)
     kind, f, o = E.choice('numbers', NUMS)
-    if kind == 'decimal':
+    if kind in ('decimal', 'identity-decimal'):
         f, o = Decimal(f), Decimal(o)
     ff, oo = Fraction(f), Fraction(o)
     rows = [(ua, ub, f, o)]
